@@ -119,6 +119,18 @@ impl Property for C19 {
             },
         ]
     }
+    fn extra(&self, tier: Tier, seed: u64) -> ExtraResult<C19Case> {
+        let mut r = ExtraResult::default();
+        if tier != Tier::Thorough {
+            return r;
+        }
+        let seeds = vec![b"cap_chown=p".to_vec(), b"=e cap_chown-e".to_vec(), b"cap_sys_admin,cap_sys_ptrace=pe".to_vec(), b"all=e".to_vec(), b"cap_checkpoint_restore+eip cap_bpf-i".to_vec()];
+        let c = fuzz::run(&fuzz::Campaign { target: "fz_caps", runs: 1_000_000, jobs: 8, max_len: 96, seeds }, seed);
+        r.fields = c.fields;
+        r.inconclusive = c.inconclusive;
+        r.cases = c.artifacts.into_iter().filter_map(|a| String::from_utf8(a).ok()).map(C19Case).collect();
+        r
+    }
     fn check(&self, case: &C19Case) -> Outcome {
         let mut o = Outcome::new();
         match judge_text(&case.0) {
